@@ -793,3 +793,31 @@ Definition quirk_cuelit (is_key : bool) (lit_ok : bool) (s : str) : bool :=
    node of the document ("could not find multi-line content" otherwise). *)
 Definition quirk_blank_followed (followed : bool) (literal : bool) (s : str) : bool :=
   followed && literal && forallb (N.eqb c_nl) s.
+
+(* ------------------------------------------------------------------ *)
+(* Conditions used by the theorems (Yaml/Proofs.v, Yaml/Literal.v).   *)
+
+(* first line that is not made of blanks only *)
+Fixpoint first_real (ls : list str) : option str :=
+  match ls with
+  | [] => None
+  | l :: r => if all_spaces l then first_real r else Some l
+  end.
+(* no line consists of blanks only, unless it is empty *)
+Definition lines_clean (ls : list str) : bool :=
+  forallb (fun l => negb (all_spaces l) || match l with [] => true | _ => false end) ls.
+(* exact condition under which the literal block written for s reads back as s:
+   no carriage return, no blank-only line, and either the first non-empty line
+   does not start with a blank, or there are only empty lines and at least two
+   of them are terminated (the header is then "|+"). *)
+Definition literal_ok (s : str) : bool :=
+  negb (mem_chr c_cr s) && lines_clean (split_nl s) &&
+  match first_real (split_nl s) with
+  | Some (c :: _) => negb (c =? c_sp)
+  | Some [] => false
+  | None => ends_nlnl s
+  end.
+(* what the encoder's blockLiteralSafe lets through although literal_ok fails *)
+Definition literal_gap (s : str) : bool :=
+  str_eqb s [c_nl] ||
+  match first_real (split_nl s) with Some (c :: _) => c =? c_sp | _ => false end.
